@@ -5,7 +5,7 @@
 # Every finding is a false alarm of the checker (or a refactoring that was not behaviour
 # preserving after all): both need a look. The worktree is removed afterwards.
 export GOFLAGS=-mod=mod GOPROXY=off GOSUMDB=off GOTOOLCHAIN=local GOWORK=off
-sd=$1; shift
+sd=$(realpath $1); shift
 props=${@:-C01 C02 C03 C04 C05 C06 C07 C08 C09 C10 C11 C12 C13 C14 C15 C16 C17 C18 C19 C20}
 name=$(basename $sd)
 wt=$(mktemp -d /tmp/rv.XXXXXX)/wt
